@@ -509,6 +509,52 @@ fn check_out_of_range(ctx: &mut Ctx) {
             Err(p) => ctx.violation(&p.key(), &format!("JSON object {text} panicked: {}", p.msg), replay),
         }
     }
+    // text -> liquid value -> Rust integer type: the second hop must give back the integer that was
+    // written, or fail -- a big integer that is carried as a float must not come back rounded
+    for text in [
+        "9223372036854775808", "9223372036854775809", "9223372036854776833", "18446744073709551615", "18446744073709551614",
+        "18446744073709549568", "18446744073709551616", "10000000000000000001", "-9223372036854775809", "-9223372036854777857",
+        "9223372036854775807", "9007199254740993", "-9007199254740993",
+    ] {
+        let exact: i128 = text.parse().unwrap();
+        for (src, parsed) in [
+            ("JSON", guard(|| serde_json::from_str::<Value>(text).ok())),
+            ("JSON object member", guard(|| serde_json::from_str::<Object>(&format!("{{\"a\": {text}}}")).ok().and_then(|o| o.get("a").cloned()))),
+        ] {
+            ctx.count("integer-text:read-back");
+            let v = match parsed {
+                Ok(Some(v)) => v,
+                Ok(None) => {
+                    ctx.count("integer-text:rejected-at-parse");
+                    continue;
+                }
+                Err(p) => {
+                    ctx.violation(&p.key(), &format!("{src} {text} panicked: {}", p.msg), replay);
+                    continue;
+                }
+            };
+            let back: Vec<(&str, Result<Option<i128>, crate::mon::Panic>)> = vec![
+                ("u64", guard(|| from_value::<u64>(&v).ok().map(|x| x as i128))),
+                ("usize", guard(|| from_value::<usize>(&v).ok().map(|x| x as i128))),
+                ("i64", guard(|| from_value::<i64>(&v).ok().map(|x| x as i128))),
+                ("u32", guard(|| from_value::<u32>(&v).ok().map(|x| x as i128))),
+                ("Option<u64>", guard(|| from_value::<Option<u64>>(&v).ok().flatten().map(|x| x as i128))),
+                ("Vec<u64>[0]", guard(|| from_value::<Vec<u64>>(&Value::Array(vec![v.clone()])).ok().and_then(|a| a.first().copied()).map(|x| x as i128))),
+            ];
+            for (ty, r) in back {
+                match r {
+                    Ok(None) => ctx.count("integer-text:read-back-rejected"),
+                    Ok(Some(y)) if y == exact => ctx.count("integer-text:read-back-exact"),
+                    Ok(Some(y)) => ctx.violation(
+                        "serde:integer-roundtrip-changes-value",
+                        &format!("{src} {text} -> {} -> {ty} {y}: a different integer", dump_view(&v)),
+                        replay,
+                    ),
+                    Err(p) => ctx.violation(&p.key(), &format!("{src} {text} -> {ty} panicked: {}", p.msg), replay),
+                }
+            }
+        }
+    }
     for (text, want) in [("9223372036854775807", i64::MAX), ("-9223372036854775808", i64::MIN), ("0", 0), ("-1", -1)] {
         ctx.count("in-range:json");
         match serde_json::from_str::<Value>(text) {
